@@ -225,17 +225,130 @@ class Deps:
                                 if r not in methods:
                                     inner.add("lossy:self." + r)     # a method result is a projection of the fields it reads
                     else:
-                        inner |= self.of(recv, depth + 1, seen)
+                        # a method result is a projection of its receiver: `self.obj.countPos()` mentions self.obj only lossily
+                        inner |= {("lossy:" + d) if d.startswith("self.") else d for d in self.of(recv, depth + 1, seen)}
                 for a in n.args:
                     inner |= self.of(a, depth + 1, seen)
                 for k in n.keywords:
                     inner |= self.of(k.value, depth + 1, seen)
                 if lossy:
                     inner = {("lossy:" + d) if d.startswith("self.") else d for d in inner}
+                # how a parameter reaches this point: a chain of projections (`tuple(sorted(p))` -> proj:sorted>iter:p)
+                kind = None
+                if isinstance(fn, ast.Name):
+                    kind = PROJ_FUNCS.get(fn.id)
+                elif isinstance(fn, ast.Attribute) and not (isinstance(fn.value, ast.Name) and fn.value.id == self.selfname):
+                    kind = PROJ_METHODS.get(fn.attr, "other" if self.of(fn.value, depth + 1, seen) else None)
+                    if fn.attr in ("copy",):
+                        kind = None
+                if kind:
+                    inner = {_project(d, kind) for d in inner}
                 return out | inner
             for c in ast.iter_child_nodes(n):
                 out |= self.of(c, depth + 1, seen)
         return out
+
+
+PROJ_FUNCS = {"sorted": "sorted", "tuple": "iter", "list": "iter", "iter": "iter", "set": "set", "frozenset": "set", "len": "agg", "sum": "agg", "min": "agg",
+              "max": "agg", "any": "agg", "all": "agg", "bool": "agg", "hash": "agg", "id": "agg", "type": "agg"}
+PROJ_METHODS = {"keys": "keys", "values": "values", "items": "items", "count": "agg", "index": "agg", "startswith": "agg", "endswith": "agg", "get": "agg"}
+
+
+def _project(d, kind):
+    if d.startswith("param:"):
+        return "proj:%s:%s" % (kind, d[6:])
+    if d.startswith("proj:"):
+        _, chain, name = d.split(":", 2)
+        return "proj:%s>%s:%s" % (chain, kind, name)
+    return d
+
+
+def _chain_verdict(chain, is_dict):
+    """what a projection chain keeps of a parameter: 'all' | 'keys' (of a dict: its values are dropped) | 'unknown'"""
+    steps = chain.split(">")
+    if is_dict:
+        if steps[0] == "items" and all(x in ("sorted", "iter", "set") for x in steps[1:]):
+            return "all"
+        if steps[0] in ("keys", "sorted", "iter", "set") and all(x in ("sorted", "iter", "set") for x in steps[1:]):
+            return "keys"
+        return "unknown"
+    if all(x == "iter" for x in steps):
+        return "all"          # tuple(p) / list(p) of a sequence keeps everything
+    return "unknown"
+
+
+def _param_is_dict(fnode, name):
+    a = fnode.args
+    pos = a.posonlyargs + a.args
+    for arg, d in zip(pos[len(pos) - len(a.defaults):], a.defaults):
+        if arg.arg == name and (isinstance(d, ast.Dict) or (isinstance(d, ast.Call) and getattr(d.func, "id", None) == "dict")):
+            return True
+    for arg, d in zip(a.kwonlyargs, a.kw_defaults):
+        if arg.arg == name and isinstance(d, ast.Dict):
+            return True
+    return False
+
+
+def _values_read(prog, finfo, name, depth=0, seen=None):
+    """does the function (or a package function the parameter is handed on to) read the values stored under the dict parameter?"""
+    seen = seen if seen is not None else set()
+    if finfo is None or depth > 4 or (finfo.key, name) in seen:
+        return False
+    seen.add((finfo.key, name))
+    for n in ast.walk(finfo.node):
+        if isinstance(n, ast.Subscript) and isinstance(n.ctx, ast.Load) and isinstance(n.value, ast.Name) and n.value.id == name and not isinstance(n.slice, ast.Slice):
+            return True
+        if isinstance(n, ast.Call) and isinstance(n.func, ast.Attribute) and isinstance(n.func.value, ast.Name) and n.func.value.id == name \
+                and n.func.attr in ("values", "items", "get"):
+            return True
+        if isinstance(n, ast.Call):
+            hit = [i for i, a in enumerate(n.args) if isinstance(a, ast.Name) and a.id == name]
+            kws = [k.arg for k in n.keywords if isinstance(k.value, ast.Name) and k.value.id == name and k.arg]
+            if not hit and not kws:
+                continue
+            callee = prog.resolve_call(finfo, n)
+            if callee is None:
+                continue
+            params = callee.params()[1:] if callee.cls else callee.params()
+            for i in hit:
+                if i < len(params) and _values_read(prog, callee, params[i], depth + 1, seen):
+                    return True
+            for k in kws:
+                if _values_read(prog, callee, k, depth + 1, seen):
+                    return True
+    return False
+
+
+IO_READS = {"open", "io.open", "codecs.open", "np.loadtxt", "np.load", "np.genfromtxt", "SeqIO.parse", "SeqIO.read", "os.listdir", "input"}
+IO_STAMPS = {"os.stat", "os.path.getmtime", "os.path.getsize", "os.path.getctime", "hashlib.md5", "hashlib.sha1", "hashlib.sha256"}
+
+
+def _reads_outside(prog, finfo, node, depth=0, seen=None):
+    """does evaluating `node` (inside finfo) read a file or another source outside the program - something no key can name?
+    -> description of the read or None"""
+    seen = seen if seen is not None else set()
+    for n in ast.walk(node):
+        if not isinstance(n, ast.Call):
+            continue
+        fn = unparse(n.func)
+        if fn in IO_READS:
+            return "%s at %s" % (fn, finfo.loc(n) if finfo is not None else "?")
+        callee = prog.resolve_call(finfo, n) if finfo is not None else None
+        if callee is not None and callee.key not in seen and depth < 6:
+            seen.add(callee.key)
+            for st in callee.node.body:
+                r = _reads_outside(prog, callee, st, depth + 1, seen)
+                if r:
+                    return r
+    return None
+
+
+def _inline_key(site, finfo):
+    from .bind import inline_locals
+    try:
+        return inline_locals(finfo, site.key)
+    except Exception:
+        return site.key
 
 
 def analyse(prog, E):
@@ -259,10 +372,28 @@ def analyse(prog, E):
         missing = []
         why = []
         # (a) parameters
-        for p in sorted(x for x in valdeps if x.startswith("param:")):
-            if p not in keydeps:
+        lossy_params = []
+        infl = {x[6:] for x in valdeps if x.startswith("param:")} | {x.split(":", 2)[2] for x in valdeps if x.startswith("proj:")}
+        finfo = site.mod.funcs.get((site.cls + "." if site.cls else "") + site.fnode.name)
+        for name in sorted(infl):
+            p = "param:" + name
+            if p in keydeps:
+                continue
+            chains = [x.split(":", 2)[1] for x in keydeps if x.startswith("proj:") and x.split(":", 2)[2] == name]
+            if not chains:
                 missing.append(p)
-                why.append("parameter '%s' influences the stored value but is not part of the key" % p[6:])
+                why.append("parameter '%s' influences the stored value but is not part of the key" % name)
+                continue
+            is_dict = _param_is_dict(site.fnode, name)
+            vs = {_chain_verdict(c, is_dict) for c in chains}
+            if "all" in vs:
+                continue
+            if vs == {"keys"} and finfo is not None and _values_read(prog, finfo, name):
+                missing.append(p)
+                why.append("the key holds only the keys of the dict parameter '%s' (%s); the values stored under them are read by the cached computation"
+                           % (name, ", ".join(sorted(chains))))
+                continue
+            lossy_params.append("param:%s via %s" % (name, ", ".join(sorted(chains))))
         # fields read by the cached computation
         fields = {x.replace("lossy:", "") for x in valdeps if x.startswith(("self.", "lossy:self."))}
         fields.discard("self." + site.table)
@@ -289,7 +420,18 @@ def analyse(prog, E):
                 if fld not in key_names:
                     missing.append(fld)
                     why.append("table is shared by all objects; the cached value reads %s but the key does not mention it" % fld)
-        lossy = sorted(k for k in keydeps if k.startswith("lossy:"))
+        # (d) the cached computation reads the world outside the program: the stored value can go stale under every key
+        #     that does not itself carry a stamp of that outside state (and a stamp is beyond what is decided here)
+        outside = _reads_outside(prog, finfo, site.value) if finfo is not None else None
+        if outside:
+            stamps = [unparse(c.func) for c in ast.walk(_inline_key(site, finfo)) if isinstance(c, ast.Call) and unparse(c.func) in IO_STAMPS]
+            if stamps:
+                lossy_params.append("outside state (%s) stamped by %s" % (outside, stamps))
+            else:
+                missing.append("outside:" + outside)
+                why.append("the stored value is read from outside the program (%s); the key %s only names where to read, so a later call returns "
+                           "what was there the first time" % (outside, unparse(site.key)))
+        lossy = sorted(k for k in keydeps if k.startswith("lossy:")) + lossy_params
         verdict = "violation" if missing else ("unknown" if lossy else "ok")
         res.append({"site": site, "verdict": verdict, "missing": missing, "why": why, "lossy": lossy,
                     "key": unparse(site.key), "value": unparse(site.value)[:80]})
